@@ -36,6 +36,8 @@ var menu = [][]mapref.DP{
 	// a set series without members (what a forwarder sends for an idle set, and what an aggregator holds
 	// after a flush) carrying the newest timestamp
 	{{Type: "s", Name: "s", Empty: true, TS: 4}},
+	// one tag set written in two orders (two tags sharing a key): one series
+	{{Type: "c", Name: "a", Value: 1, Rate: 1, TS: 1, Tags: []string{"k:v", "k:w"}}, {Type: "c", Name: "a", Value: 2, Rate: 1, TS: 1, Tags: []string{"k:w", "k:v"}}},
 	// a counter batch that nets to zero but carries the newest timestamp
 	{{Type: "c", Name: "a", Value: 0, Rate: 1, TS: 5}},
 	// a sampled timer of an existing name under another tag set, after an untagged datapoint in the same map
